@@ -425,6 +425,7 @@ Lemma expand_tags a al st a' al' : arr_expand a al = Ok (st, a', al') -> only_ow
 Proof.
   unfold arr_expand. destruct (g_array_expand_at_max (a_cap a)); [intros H; inversion H; subst; split; [apply only_own_refl|reflexivity]|].
   set (new := if g_array_expand_overflow _ _ then _ else _).
+  destruct (g_array_expand_bytes new SIZE_MAX); [intros H; inversion H; subst; split; [apply only_own_refl|reflexivity]|].
   destruct (alloc (a_mem a) (wmul new 8) al) as [[b|] a1] eqn:Ea.
   - destruct (wmul new 8 / 8 <? a_size a); [discriminate|].
     destruct (release (a_mem a) (a_blk a) a1) as [a2|] eqn:Er; cbn [bind]; [|discriminate].
